@@ -64,6 +64,14 @@ def build(case):
     rbg = [mk(i, k == 0 and not fbg) for k, i in enumerate(parts[1])]
     own = [mk(i, k == 0 and not fbg and not rbg) for k, i in enumerate(parts[2])]
     tags = ["wip"] if case.get("wip") else []
+    if case.get("as_row") and case.get("bg_placeholders") and depth >= 1:
+        # background steps whose outcome comes from an examples column of the outline rows: behave
+        # substitutes them per row; in a plain scenario (SIB) such a step has no definition
+        for blist, idxs in ((fbg, parts[0]), (rbg, parts[1])):
+            for k, i in enumerate(idxs):
+                if outs[i] not in ("act",) and (i + len(outs)) % 2 == 0:
+                    blist[k] = dict(blist[k], o="<b%d>" % i)
+                    blist[k].pop("a", None)
     if case.get("as_row"):
         # the scenario under test is the 2nd row of an outline; outcome of step i comes from column ci
         cols = ["c%d" % i for i in parts[2]]
@@ -78,6 +86,12 @@ def build(case):
         row_test = [PHRASE[outs[i]] if outs[i] != "act" else "acts" for i in parts[2]]
         if not cols:
             cols, row_pass, row_test = ["c"], ["x"], ["y"]
+        for blist, idxs in ((fbg, parts[0]), (rbg, parts[1])):
+            for k, i in enumerate(idxs):
+                if blist[k]["o"].startswith("<b"):
+                    cols = cols + ["b%d" % i]
+                    row_pass = row_pass + [PHRASE["pass"]]
+                    row_test = row_test + [PHRASE[outs[i]]]
         sut = {"k": "o", "name": "SUT", "tags": tags, "steps": osteps,
                "ex": [{"name": "", "tags": [], "cols": cols, "rows": [row_pass, row_test]}]}
     else:
@@ -114,7 +128,7 @@ def check(case):
         nonlast = any(o != "pass" for o in outs[:-1])
         res.nontrivial = bool(nonlast or case.get("depth"))
         res.label("depth:%d" % case.get("depth", 0), "row" if case.get("as_row") else "plain")
-        for f in ("wip", "dry", "async", "cont"):
+        for f in ("wip", "dry", "async", "cont", "bg_placeholders"):
             if case.get(f):
                 res.label(f)
         if outs:
@@ -185,7 +199,10 @@ def random_seq(draw, max_len=12):
             "cut1": draw(st.integers(0, n)), "cut2": draw(st.integers(0, n)),
             "as_row": draw(st.booleans()), "wip": draw(st.booleans()),
             "dry": draw(st.integers(0, 4)) == 0, "async": draw(st.booleans()),
-            "kws": draw(st.lists(st.sampled_from(gen.STEP_KW), min_size=1, max_size=5))}
+            "kws": draw(st.lists(st.sampled_from(gen.STEP_KW), min_size=1, max_size=5)),
+            "bg_placeholders": draw(st.booleans())}
+    # some conversion errors come from converters that raise KeyError instead of ValueError
+    case["outs"] = [("convert_key" if (o == "convert" and draw(st.booleans())) else o) for o in case["outs"]]
     return case
 
 
@@ -227,7 +244,8 @@ def explore(rec):
 
 
 def required_labels(tier):
-    req = ["depth:0", "depth:1", "depth:2", "row", "plain", "wip", "dry", "async", "cont", "rerun", "program"]
+    req = ["depth:0", "depth:1", "depth:2", "row", "plain", "wip", "dry", "async", "cont", "rerun", "program",
+           "bg_placeholders", "first:convert_key"]
     for o in OUTCOMES:
         req += ["first:" + o, "middle:" + o, "last:" + o]
     return req
